@@ -555,3 +555,116 @@ def thread_entries(prog):
             raise fe.AnalysisBroken('pthread_create in %s: entry function not a direct function reference' % f.name)
         ents.add(ent)
     return ents
+
+
+# ---------------------------------------------------------------------------------------
+# T4  argument privacy: what a worker writes through its argument is either private to that worker or own-indexed
+
+def arg_field_classes(prog, f, argbase_id):
+    """classify the pointer fields of the per-thread argument array `A` in dispatcher f:
+    'private' = the object is created per element A[k] (New*/init*/alloc applied to &A[k].F, or A[k].F = call());
+    'shared'  = assigned from a value that does not depend on k"""
+    cls = {}
+    for n in walk(f.body):
+        if n.get('kind') == 'CallExpr':
+            cn = callee_name(n) or ''
+            for a in call_args(n):
+                s_ = strip(a)
+                if s_.get('kind') == 'UnaryOperator' and s_.get('opcode') == '&':
+                    s_ = strip(kids(s_)[0])
+                if s_.get('kind') == 'MemberExpr':
+                    b = strip(kids(s_)[0])
+                    if b.get('kind') == 'ArraySubscriptExpr' and fe.ref_id(kids(b)[0]) == argbase_id:
+                        if cn.startswith(('New', 'init')) or cn in ('xmalloc', 'malloc'):
+                            cls[s_['name']] = 'private'
+        if is_assign(n) and n.get('opcode') == '=':
+            l = strip(kids(n)[0])
+            if l.get('kind') == 'MemberExpr' and '*' in (l.get('type') or {}).get('qualType', ''):
+                b = strip(kids(l)[0])
+                if b.get('kind') == 'ArraySubscriptExpr' and fe.ref_id(kids(b)[0]) == argbase_id:
+                    r = strip(kids(n)[1])
+                    if r.get('kind') == 'CallExpr':
+                        cls[l['name']] = 'private'
+                    else:
+                        cls.setdefault(l['name'], 'shared')
+    return cls
+
+
+def fields_written_by_worker(prog, ef):
+    """{field: node} fields F of the worker argument such that the worker (transitively) stores through arg->F"""
+    from .ioflow import writes_through_param
+    out = {}
+    # the local that holds the argument struct pointer (arg = (T*) arg_)
+    argvars = set()
+    for n in walk(ef.body):
+        if is_assign(n) and fe.ref_id(kids(n)[1]) == ef.params[0]['id']:
+            argvars.add(fe.ref_id(kids(n)[0]))
+        if n.get('kind') == 'VarDecl' and kids(n) and fe.ref_id(kids(n)[-1]) == ef.params[0]['id']:
+            argvars.add(n['id'])
+
+    def field_of(e):
+        """arg->F...  ->  F"""
+        e = strip(e)
+        if e.get('kind') == 'UnaryOperator' and e.get('opcode') == '&':
+            e = strip(kids(e)[0])
+        chain = []
+        while e.get('kind') in ('MemberExpr', 'ArraySubscriptExpr'):
+            if e['kind'] == 'MemberExpr':
+                chain.append(e['name'])
+            e = strip(kids(e)[0])
+        if e.get('kind') == 'DeclRefExpr' and e['referencedDecl']['id'] in argvars and chain:
+            return chain[-1], len(chain)
+        return None, 0
+    for n in walk(ef.body):
+        if is_assign(n) or is_incdec(n):
+            fld, depth = field_of(kids(n)[0])
+            if fld and depth >= 2:           # arg->F->x... (a store through the pointer, not into the private struct)
+                out.setdefault(fld, n)
+        if n.get('kind') == 'CallExpr':
+            g = prog.resolve(ef, callee_name(n)) if callee_name(n) else None
+            if g is None or g.body is None:
+                continue
+            w = writes_through_param(prog, g)
+            for j, a in enumerate(call_args(n)):
+                if j in w:
+                    fld, depth = field_of(a)
+                    if fld:
+                        out.setdefault(fld, n)
+    return out
+
+
+def t4(chk, prog, exempt_entries=()):
+    R = chk.rule('T4.argument-privacy', 'every object a worker stores through (via a pointer field of its argument) is created per '
+                 'worker by the dispatcher; pointer fields shared between workers are only read (range-sliced workers are exempt: '
+                 'their shared stores are decided by the ownership rule S4)')
+    done = set()
+    for (f, base), creates in dispatch_sites(prog).items():
+        for (call, ent, idx, a) in creates:
+            if ent in exempt_entries or (f.name, ent) in done:
+                continue
+            done.add((f.name, ent))
+            ef = prog.funcs.get(ent)
+            if ef is None or len(a) < 4:
+                continue
+            t = strip(a[3])
+            if t.get('kind') == 'UnaryOperator' and t.get('opcode') == '&':
+                t = strip(kids(t)[0])
+            if t.get('kind') != 'ArraySubscriptExpr':
+                chk.instance(R, '%s -> %s: argument is not an element of a per-dispatch array' % (f.name, ent), 'undecided')
+                continue
+            bid = fe.ref_id(kids(t)[0])
+            cls = arg_field_classes(prog, f, bid)
+            written = fields_written_by_worker(prog, ef)
+            bad = [(fld, node) for fld, node in written.items() if cls.get(fld) == 'shared']
+            unk = [fld for fld in written if fld not in cls]
+            if bad:
+                for fld, node in bad:
+                    chk.instance(R, '%s -> %s writes through shared field %s' % (f.name, ent, fld), 'refuted')
+                    chk.violation(Finding('T4.argument-privacy', rel(ef.file), ent, 'field:' + fld, ef.unit.where(node),
+                                          'worker %s stores through its argument field `%s`, which %s fills with the same object for every '
+                                          'worker: concurrent workers write the same memory' % (ent, fld, f.name)))
+            elif unk:
+                chk.instance(R, '%s -> %s: written fields %s are not assigned in the dispatcher' % (f.name, ent, unk), 'undecided')
+            else:
+                chk.instance(R, '%s -> %s: writes only through per-worker fields %s; shared fields %s are read-only' % (
+                    f.name, ent, sorted(written), sorted(k for k, v in cls.items() if v == 'shared')))
